@@ -30,6 +30,9 @@ TRUSTED = [
     "when it returns",
     "tie T1 of the order model (harness/cmd/c09persist -family notice): real ActorSystem, a storage whose Save sleeps 0..25 ms of real time, "
     "observers that re-create inside OnTerminated / right after Shutdown returns; the interleavings explored are those the Go runtime produces",
+    "events recorded inside the last handlers (OnTerminate, own OnTerminated): the Coq side is the syntactic condition handlers_recorded on the "
+    "extracted statement order (no ctx.processMessage of the old instance after the last synchronous persist; a handler reached through another "
+    "helper is not seen) with the sequential reading hexec; harness/cmd/c09closing (real ActorSystem, MemoryStorage, monitors only) is the search oracle",
     "Go harness + generators + monitors (harness/cmd/c09persist, harness/vh), bin/check, lib/vlib.py",
     "Go runtime (slice append/copy semantics; the model is proved for every capacity growth policy)",
 ]
@@ -81,7 +84,9 @@ def harnesses():
     # finding is listed in known_findings.json (then every run reports it as KNOWN-FINDING with a reproduction count)
     on = any(f.get("id") == FINDING for f in vlib.known_findings("C09"))
     return [{"pkg": "c09persist", "sub": "persist", "args": ["-recordfirst"] if on else []},
-            {"pkg": "c09persist", "sub": "notice", "args": ["-family", "notice"]}]
+            {"pkg": "c09persist", "sub": "notice", "args": ["-family", "notice"]},
+            # search oracle for the clause proved by C09_last_handlers_are_persisted (events recorded in OnTerminate / own OnTerminated)
+            {"pkg": "c09closing", "sub": "closing", "coq": False}]
 
 
 HARNESSES = harnesses()
@@ -202,4 +207,4 @@ def replay(ctx, path):
                           "order_obligations_hold_now": t3ok, "now": msg[:1500],
                           "order_now": ctx.extra.get("t3_order")}))
         return 0 if t3ok else 1
-    return vlib.standard_replay(ctx, {"persist": "c09persist", "notice": "c09persist"}, path)
+    return vlib.standard_replay(ctx, {"persist": "c09persist", "notice": "c09persist", "closing": "c09closing"}, path)
